@@ -32,6 +32,7 @@ from oqupy.control import Control
 
 from vf.core import Case, Ob
 from vf import lib
+from vf.poly import ob_eq_poly
 
 ASSUMPTIONS = [
     "exact real/complex arithmetic (floating-point rounding of tensor arithmetic outside the claim)",
@@ -158,10 +159,13 @@ class H1(Case):
              "numpy zeros(dtype='complex128') in oqupy.gradient -> object array (NpProxy)")
     env = {"noconj": True, "np_proxy_modules": NP_PROXY}
 
-    def __init__(self, nenv, N, bond, rank=4, controls="none", part="all", d=2, timeout_s=300):
-        """part: 'all' | 'final' (last step only) | 'nonfinal' (all other steps)"""
+    def __init__(self, nenv, N, bond, rank=4, controls="none", part="all", d=2, timeout_s=300, som=False):
+        """part: 'all' | 'final' (last step only) | 'nonfinal' (all other steps)
+        som: put the difference into sum-of-monomials normal form with z3's rewriter before the query
+        (vf/poly.py); needed for the larger identities, slower than the plain query for the small ones"""
         self.nenv, self.N, self.bond, self.rank, self.controls, self.part, self.d = nenv, N, bond, rank, controls, part, d
-        tag = "env%d_N%d_b%d_r%d_%s" % (nenv, N, bond, rank, controls)
+        self.som = som
+        tag = "env%d_N%d_b%d_r%d_%s%s" % (nenv, N, bond, rank, controls, "" if d == 2 else "_d%d" % d)
         if part == "nonfinal" and nenv >= 2 and rank == 4:
             # defect class: several environments whose MPO tensors do not commute on the
             # system leg, derivative w.r.t. a propagator of a step before the last one
@@ -208,9 +212,11 @@ class H1(Case):
         for n in self.steps():
             for half in (0, 1):
                 got = np.asarray(grad[2 * n + half]).reshape(D, D)
-                obs.append(Ob.eq("dZ/dP%d[%d]" % (half + 1, n), got, exp[(n, half)],
-                                 info="row %d of the gradient vs derivative of the forward contraction w.r.t. the %s half-step "
-                                      "propagator of step %d" % (2 * n + half, "first" if half == 0 else "second", n)))
+                # row 2n+half of the gradient vs derivative of the forward contraction w.r.t. the
+                # first/second half-step propagator of step n (polynomial identity: normal form by z3's
+                # sum-of-monomials rewriter, see vf/poly.py)
+                mk = ob_eq_poly if self.som else (lambda i_, label, g, e: Ob.eq(label, g, e))
+                obs.append(mk(inp, "dZ/dP%d[%d]" % (half + 1, n), got, exp[(n, half)]))
         return obs
 
 
@@ -373,7 +379,7 @@ class H4(Case):
 def cases(tier):
     cs = [
         H1(1, 2, 2),
-        H1(1, 2, 2, controls="inner"),
+        H1(1, 2, 1, controls="inner"),
         H1(2, 2, 1, part="final"),
         H1(2, 2, 1, part="nonfinal"),          # expected: known finding
         H1(2, 2, 2, rank=3),                   # commuting (diagonal) MPO tensors: holds at every step
@@ -383,18 +389,19 @@ def cases(tier):
     ]
     if tier == "thorough":
         cs += [
-            H1(1, 3, 2, timeout_s=900),
-            H1(1, 3, 2, controls="ends", timeout_s=900),
+            H1(1, 3, 2, timeout_s=900, som=True),
+            H1(1, 2, 2, controls="inner", timeout_s=900),
+            H1(1, 3, 1, controls="ends", timeout_s=900, som=True),
             H1(2, 2, 2, part="final", timeout_s=900),
             H1(2, 2, 2, part="nonfinal", timeout_s=900),
-            H1(2, 3, 1, part="final", timeout_s=900),
+            H1(2, 3, 1, part="final", timeout_s=900, som=True),
             H1(2, 3, 1, part="nonfinal", timeout_s=900),
-            H1(2, 2, 1, controls="inner", part="final", timeout_s=900),
+            H1(2, 2, 1, controls="inner", part="final", timeout_s=900, som=True),
             H1(2, 2, 1, controls="inner", part="nonfinal", timeout_s=900),
-            H1(3, 2, 1, part="final", timeout_s=900),
+            H1(3, 2, 1, part="final", timeout_s=900, som=True),
             H1(3, 2, 1, part="nonfinal", timeout_s=900),
             H1(2, 3, 2, rank=3, timeout_s=900),
-            H1(1, 2, 1, d=3, timeout_s=900),
+            H1(1, 2, 1, d=3, timeout_s=900, som=True),
             H2(3, 2), H3(2, 3, 2, 3, "ends"), H3(1, 3, 2, 4, "ends"), H4(2, 2, 1),
         ]
     return cs
